@@ -1,7 +1,7 @@
 (* Tactic for the generated tie lemmas of C01/C02:  traced slice_faces_plane on one symbolic face = the model. *)
 From Coq Require Import ZArith Reals Lra Psatz List Bool Arith.
 From PW Require Import Num NumR Vec NpList Result TraceTac.
-From PW.model Require Import M_slicing.
+From PW.model Require Import M_slicing M_slicing_spec.
 Import ListNotations.
 Local Open Scope R_scope.
 
